@@ -491,33 +491,54 @@ func AccessAtoms() []Atom {
 	return dedup(out)
 }
 
-// NestedConstAtoms: random nesting of constant sub-expressions (C04). Generated from a seed, fixed count.
+// NestedConst returns a random nested constant expression (C04). Layering rule: only untyped operands are used —
+// typed constant operands have recorded findings at the atom layer (results reported untyped, no wrap/overflow check,
+// no rounding to the operand type) and would re-report them through every nesting. kind 0 = integer expression
+// (all integer operators incl. shifts, %, bit operations), kind 1 = floating-point expression (+ - * /).
 func NestedConst(rnd func(int) int, depth int) string {
-	leaves := []string{"1", "2", "3", "7", "-5", "0", "127", "255", "2.5", "0.5", "1.0", "'a'", "1e3", "int8(3)", "uint8(7)", "int(9)", "float64(1.5)", "float32(0.25)", "ci", "cu8", "cf64", "cmi", "1 << 62", "cbig"}
+	if rnd(3) == 0 {
+		return nestedFloat(rnd, depth)
+	}
+	return nestedInt(rnd, depth)
+}
+
+func nestedInt(rnd func(int) int, depth int) string {
+	leaves := []string{"1", "2", "3", "7", "5", "0", "127", "255", "256", "65535", "1000003", "'a'", "'\\n'", "0x7fffffff", "1 << 62", "cbig", "9223372036854775807", "18446744073709551615"}
 	if depth <= 0 {
 		return leaves[rnd(len(leaves))]
 	}
-	switch rnd(10) {
+	switch rnd(9) {
 	case 0:
-		return "-" + paren(NestedConst(rnd, depth-1))
+		return "-" + paren(nestedInt(rnd, depth-1))
 	case 1:
-		return "^" + paren(NestedConst(rnd, depth-1))
+		return "^" + paren(nestedInt(rnd, depth-1))
 	case 2:
-		return "+" + paren(NestedConst(rnd, depth-1))
+		return "+" + paren(nestedInt(rnd, depth-1))
 	case 3:
-		ts := []string{"int", "int8", "uint8", "int64", "uint64", "float64", "float32", "MyInt", "uint16", "complex128"}
-		return ts[rnd(len(ts))] + "(" + NestedConst(rnd, depth-1) + ")"
-	case 4:
 		fs := []string{"min", "max"}
-		return fs[rnd(2)] + "(" + NestedConst(rnd, depth-1) + ", " + NestedConst(rnd, depth-1) + ")"
+		return fs[rnd(2)] + "(" + nestedInt(rnd, depth-1) + ", " + nestedInt(rnd, depth-1) + ")"
 	default:
 		ops := []string{"+", "-", "*", "/", "%", "&", "|", "^", "&^", "<<", ">>", "+", "-", "*"}
 		op := ops[rnd(len(ops))]
-		r := NestedConst(rnd, depth-1)
+		r := nestedInt(rnd, depth-1)
 		if op == "<<" || op == ">>" {
 			r = fmt.Sprint(rnd(70))
 		}
-		return paren(NestedConst(rnd, depth-1)) + " " + op + " " + paren(r)
+		return paren(nestedInt(rnd, depth-1)) + " " + op + " " + paren(r)
+	}
+}
+
+func nestedFloat(rnd func(int) int, depth int) string {
+	leaves := []string{"1", "2", "0.5", "2.5", "1.0", "1e3", "0.1", "3", "1e-3", "cflt", "16777217.0", "7"}
+	if depth <= 0 {
+		return leaves[rnd(len(leaves))]
+	}
+	switch rnd(6) {
+	case 0:
+		return "-" + paren(nestedFloat(rnd, depth-1))
+	default:
+		ops := []string{"+", "-", "*", "/"}
+		return paren(nestedFloat(rnd, depth-1)) + " " + ops[rnd(len(ops))] + " " + paren(nestedFloat(rnd, depth-1))
 	}
 }
 
